@@ -48,8 +48,18 @@ class PairingRoles:
             return [b for (i2, o2), bs in by.items() for b in bs if i2 == tuple(nrm(x) for x in ins) and pair12(o2)]
         self.tangent_eval = gp(["&" + G2T, "&" + G1T])
         self.chord_eval = gp(["&" + G2T, "&" + G2T, "&" + G1T])
-        self.tangent_step = g(["&mut " + G2T], TRIPLE)
-        self.chord_step = g(["&mut " + G2T, "&" + G2T], TRIPLE)
+        def triple_like(out):
+            """the three line coefficients: the tuple, or a crate-local struct of exactly three Fq2 fields"""
+            if out == TRIPLE:
+                return True
+            a = F.adts.get(out or "")
+            return bool(a) and len(a.get("variants") or []) == 1 and [f["ty"] for f in a["variants"][0]["fields"]] == [FQ2, FQ2, FQ2]
+        self.triple_like = triple_like
+
+        def gt(ins):
+            return [b for (i2, o2), bs in by.items() for b in bs if i2 == tuple(nrm(x) for x in ins) and triple_like(o2)]
+        self.tangent_step = gt(["&mut " + G2T])
+        self.chord_step = gt(["&mut " + G2T, "&" + G2T])
         self.twist_frob = g(["&" + G2T], G2T)
         # the same helpers merged into one that hands back several images at once: (&G2) -> (G2, G2, …)
         multi_outs = [("(%s)" % ",".join([G2T.replace(" ", "")] * k)) for k in (2, 3)]
@@ -67,7 +77,7 @@ class PairingRoles:
             a = F.adts.get(out or "")
             return bool(a) and len(a.get("variants") or []) == 1 and [f["ty"] for f in a["variants"][0]["fields"]] == [FQ12]
         self.sparse = [b for b in fns if fq12_like(b.rec.get("output")) and not any(strip_ref(t) in (FQ12, G1T, G2T) for t in b.rec["inputs"])
-                       and any(strip_ref(t) in (TRIPLE, FQ2) for t in b.rec["inputs"]) and any(strip_ref(t) == FQ for t in b.rec["inputs"])]
+                       and any(strip_ref(t) in (TRIPLE, FQ2) or triple_like(strip_ref(t)) for t in b.rec["inputs"]) and any(strip_ref(t) == FQ for t in b.rec["inputs"])]
         self.jac_loop = [b for b in g(["&" + G2T, "&" + G1T], FQ12) if b.vis == "Public"]
         self.prepared_ty = None
         self.producer = None
